@@ -122,6 +122,12 @@ func decodeCase(line string) (*Case, int, error) {
 	if c.Store, err = decStatus(kv["store"]); err != nil {
 		return nil, 0, err
 	}
+	if sn, ok := kv["snap"]; ok {
+		c.HasSnap = true
+		if c.Snap, err = decStatus(sn); err != nil {
+			return nil, 0, err
+		}
+	}
 	var pokes [][]Entry
 	if kv["pokes"] != "" {
 		for _, ps := range strings.Split(kv["pokes"], "#") {
@@ -134,18 +140,32 @@ func decodeCase(line string) (*Case, int, error) {
 	}
 	if kv["sched"] != "*" && kv["sched"] != "" {
 		for _, o := range strings.Split(kv["sched"], ",") {
+			var cur op
+			if strings.HasPrefix(o, "e") { // e<i>+<op>: pokes[i] is stored right before this attempt's Get
+				j := strings.IndexByte(o, '+')
+				if j < 0 {
+					return nil, 0, fmt.Errorf("bad op %q", o)
+				}
+				i, err := strconv.Atoi(o[1:j])
+				if err != nil || i >= len(pokes) {
+					return nil, 0, fmt.Errorf("bad op %q", o)
+				}
+				cur.hasPre, cur.pre = true, pokes[i]
+				o = o[j+1:]
+			}
 			switch {
 			case o == "g" || o == "n" || o == "u" || o == "o":
-				c.Sched = append(c.Sched, op{kind: o[0]})
+				cur.kind = o[0]
 			case strings.HasPrefix(o, "c"):
 				i, err := strconv.Atoi(o[1:])
 				if err != nil || i >= len(pokes) {
 					return nil, 0, fmt.Errorf("bad op %q", o)
 				}
-				c.Sched = append(c.Sched, op{kind: 'c', poke: pokes[i]})
+				cur.kind, cur.poke = 'c', pokes[i]
 			default:
 				return nil, 0, fmt.Errorf("bad op %q", o)
 			}
+			c.Sched = append(c.Sched, cur)
 		}
 	}
 	return c, steps, nil
